@@ -68,7 +68,7 @@ def history(rng, tier):
                 lines.append('da_poly %s' % lst([f64(c) for c in rng.choice([[0.0, 1.0], [1.0, 2.0], [0.5, 0.25, 2.0], [3.0]])]))
                 calibrated = True
             elif q < 0.75:
-                lines.append('da_origin %s' % f64(rng.choice([1.0, -2.0, 0.5])))
+                lines.append('da_origin %s' % f64(rng.choice([1.0, -2.0, 0.5, 0.1, 16777217.0, 1.0 / 3.0])))      # also origins that single precision cannot hold
                 calibrated = True
             else:
                 lines.append('da_poly ~'); lines.append('da_origin ~'); calibrated = False
